@@ -12,6 +12,9 @@ from common import *  # noqa
 
 PID = 'C04'
 TOL = 1e-9
+MAX_TIMEOUT_FRAC = 0.01   # per measure variant
+ABORT_AFTER_TIMEOUTS = 3    # per work item
+MAX_RAISE_FRAC = 0.25     # edge_nei_overlap_* legitimately raise ZeroDivisionError on ~5-15 % of small graphs
 
 # --------------------------------------------------------------------------- graph classes
 # class of a graph: b/w/s (binary, positive integer weights, signed integer weights) x u/d
@@ -37,6 +40,14 @@ def has_edge(A):
     return bool(np.any(A != 0))
 
 
+def top_simple(A):
+    """is the largest eigenvalue of the symmetric matrix A simple?"""
+    if len(A) < 2:
+        return True
+    w = np.linalg.eigvalsh((A + A.T) / 2.0)
+    return bool(w[-1] - w[-2] > 1e-9 * max(1.0, abs(w[-1])))
+
+
 # --------------------------------------------------------------------------- measures
 class M:
     """fn(bct, A, ci) -> tuple of outputs; outs = ((label, kind, exact), ...)
@@ -44,8 +55,9 @@ class M:
           ms multiset of rows | part partition given as label vector |
           x / xp excluded matrix / matrix of node indices (tie-dependent by definition, counted only)"""
 
-    def __init__(self, name, dom, fn, outs, variant='', need=None, cond=None, t=5.0, uses_ci=False):
+    def __init__(self, name, dom, fn, outs, variant='', need=None, cond=None, t=3.0, uses_ci=False, cond_fn=None):
         self.name, self.dom, self.fn, self.outs, self.variant, self.need, self.t = name, dom, fn, outs, variant, need, t
+        self.cond_fn = cond_fn      # graph -> extra keys of a violation's cond (matched against known findings)
         self.uses_ci = uses_ci      # the measure reads the per-node input ci (else results are cached per labelled graph)
         self.cond = cond or {}
         self.key = name + (':' + variant if variant else '')
@@ -115,8 +127,9 @@ def build_measures():
     add('edge_betweenness_wei', 'wd', lambda b, A, ci: b.edge_betweenness_wei(A), (('EBC', MM, AP), ('BC', V, AP)))
     add('pagerank_centrality', 'wd', lambda b, A, ci: (b.pagerank_centrality(A, 0.85),), (('r', V, AP),), variant='uniform')
     add('pagerank_centrality', 'wd', lambda b, A, ci: (b.pagerank_centrality(A, 0.5, falff=np.asarray(ci, float) + 1.0),), (('r', V, AP),), variant='falff', uses_ci=True)
+    # documented domain: any undirected matrix; "the eigenvector of the largest eigenvalue" is unique only when that eigenvalue is simple
     add('eigenvector_centrality_und', 'wu', lambda b, A, ci: (b.eigenvector_centrality_und(A),), (('v', V, AP),),
-        need=lambda A: len(A) >= 2 and connected_und(A))
+        need=lambda A: len(A) >= 2, cond_fn=lambda A: {'top_eigenvalue_simple': top_simple(A)})
     add('subgraph_centrality', 'bu', lambda b, A, ci: (b.subgraph_centrality(A),), (('Cs', V, AP),))
     add('flow_coef_bd', 'bd', lambda b, A, ci: b.flow_coef_bd(A), (('fc', V, EX), ('FC', S, AP), ('total_flo', V, EX)))
     add('participation_coef', 'wd', lambda b, A, ci: (b.participation_coef(A, ci),), (('P', V, AP),), variant='undirected/out', uses_ci=True)
@@ -263,6 +276,13 @@ def evaluate(m, A, ci):
     return st, None
 
 
+def cond_of(m, A):
+    c = dict(m.cond)
+    if m.cond_fn is not None:
+        c.update(m.cond_fn(A))
+    return c
+
+
 def check_pair(m, A, ci, p, base, permd, res):
     """compare one (graph, permutation) pair; res is the worker's accumulator"""
     res['pairs'] += 1
@@ -274,10 +294,11 @@ def check_pair(m, A, ci, p, base, permd, res):
             res['both_raise'] += 1
             res['raise_kinds'][base[1]] = res['raise_kinds'].get(base[1], 0) + 1
         else:
-            res['viol'].append({'measure': m.key, 'name': m.name, 'pred': 'raises-on-one-numbering-only', 'cond': dict(m.cond),
+            res['viol'].append({'measure': m.key, 'name': m.name, 'pred': 'raises-on-one-numbering-only', 'cond': cond_of(m, A),
                                 'detail': {'measure': m.key, 'A': A.tolist(), 'p': [int(t) for t in p], 'ci': ci.tolist(),
                                            'base': str(base[:2])[:200], 'renumbered': str(permd[:2])[:200]}})
         return
+    res['ok_pairs'] += 1
     for (label, kind, exact), bo, po in zip(m.outs, base[1], permd[1]):
         if kind in ('x', 'xp'):
             # excluded output (defined only up to a choice among ties): count how often it moves, never a violation
@@ -290,19 +311,19 @@ def check_pair(m, A, ci, p, base, permd, res):
                 res['excluded_differs'] += 1
             continue
         if not compare(kind, exact, bo, po, p):
-            res['viol'].append({'measure': m.key, 'name': m.name, 'pred': 'equivariance', 'cond': dict(m.cond),
+            res['viol'].append({'measure': m.key, 'name': m.name, 'pred': 'equivariance', 'cond': cond_of(m, A),
                                 'detail': {'measure': m.key, 'output': label, 'kind': kind, 'exact': exact, 'A': A.tolist(),
                                            'p': [int(t) for t in p], 'ci': ci.tolist(),
                                            'f(A)': np.asarray(bo, float).tolist(), 'f(A[p,p])': np.asarray(po, float).tolist()}})
             return
     if len(m.outs) != len(base[1]) or len(m.outs) != len(permd[1]):
-        res['viol'].append({'measure': m.key, 'name': m.name, 'pred': 'output-arity', 'cond': dict(m.cond),
+        res['viol'].append({'measure': m.key, 'name': m.name, 'pred': 'output-arity', 'cond': cond_of(m, A),
                             'detail': {'measure': m.key, 'A': A.tolist(), 'expected': len(m.outs), 'got': len(base[1])}})
 
 
 def new_res(m, fam):
-    return {'measure': m.key, 'family': fam, 'pairs': 0, 'calls': 0, 'timeouts': 0, 'both_raise': 0, 'raise_kinds': {}, 'excluded_differs': 0,
-            'viol': [], 'nontrivial': 0, 'sample': None}
+    return {'measure': m.key, 'family': fam, 'pairs': 0, 'ok_pairs': 0, 'calls': 0, 'timeouts': 0, 'both_raise': 0, 'raise_kinds': {}, 'excluded_differs': 0,
+            'viol': [], 'nontrivial': 0, 'sample': None, 'aborted': False}
 
 
 def perms_of(n):
@@ -338,6 +359,9 @@ def run_item(item):
     else:
         work = [(np.array(a, float), [np.array(p) for p in ps]) for a, ps in payload]
     for A, plist in work:
+        if res['timeouts'] >= ABORT_AFTER_TIMEOUTS:      # a hanging measure must not hang the check: give up on this item
+            res['aborted'] = True
+            break
         if graph_class(A) not in ACCEPT[m.dom]:
             continue
         if m.need is not None and not m.need(A):
@@ -345,6 +369,8 @@ def run_item(item):
         ci = ci_of(A)
         base = ev(A, ci)
         for p in plist:
+            if res['timeouts'] >= ABORT_AFTER_TIMEOUTS:
+                break
             Ap = A[np.ix_(p, p)]
             permd = ev(Ap, ci[p])
             k = (A.tobytes(), tuple(int(t) for t in p))
@@ -612,9 +638,12 @@ def main():
     results = pmap1(run_item, items)
     table = {}
     for r in results:
-        t = table.setdefault(r['measure'], {'pairs': 0, 'calls': 0, 'timeouts': 0, 'both_raise': 0, 'excluded_outputs_differ': 0, 'nontrivial': 0})
-        t['pairs'] += r['pairs']; t['calls'] += r['calls']; t['timeouts'] += r['timeouts']; t['both_raise'] += r['both_raise']
+        t = table.setdefault(r['measure'], {'pairs': 0, 'returned_normally': 0, 'calls': 0, 'timeouts': 0, 'both_raise': 0,
+                                            'excluded_outputs_differ': 0, 'nontrivial': 0})
+        t['pairs'] += r['pairs']; t['calls'] += r['calls']; t['returned_normally'] += r['ok_pairs']; t['timeouts'] += r['timeouts']; t['both_raise'] += r['both_raise']
         t['excluded_outputs_differ'] += r['excluded_differs']; t['nontrivial'] += r['nontrivial']
+        if r['aborted']:
+            t['items_aborted_on_timeouts'] = t.get('items_aborted_on_timeouts', 0) + 1
         for kd, c in r['raise_kinds'].items():
             t['raise:' + kd] = t.get('raise:' + kd, 0) + c
         ck.count('family:' + r['family'], r['pairs'])
@@ -626,6 +655,22 @@ def main():
             ck.violation(v['name'], v['pred'], v['detail'], v['cond'])
     if not ck.cov['samples']:
         ck.cov['samples'] = [r['sample'] for r in results if r['sample'] is not None][:4]
+    # a measure that (almost) never returns normally cannot be said to satisfy the property: bounded, not just counted
+    if not ck.replay:
+        for k in sorted(table):
+            t = table[k]
+            why = None
+            if t['pairs'] and t['returned_normally'] == 0:
+                why = 'never returned normally'
+            elif t.get('items_aborted_on_timeouts') or t['timeouts'] > max(2, MAX_TIMEOUT_FRAC * t['pairs']):
+                why = 'timeouts on more than %g of the pairs' % MAX_TIMEOUT_FRAC
+            elif t['both_raise'] > MAX_RAISE_FRAC * t['pairs']:
+                why = 'raises on more than %g of the pairs' % MAX_RAISE_FRAC
+            if why:
+                ck.breaks.append({'kind': 'measure-degenerate', 'measure': k, 'why': why, 'counts': t})
+        missing = [m.key for m in MEASURES if m.key not in table and not only]
+        if missing:
+            ck.breaks.append({'kind': 'measure-not-exercised', 'measures': missing})
     ck.cov['per_measure'] = {k: table[k] for k in sorted(table)}
     ck.cov['measures'] = len(table)
     nontriv = sum(t['nontrivial'] for t in table.values())
@@ -699,45 +744,20 @@ def _ops():
         O.append({'name': name, 'cls': cls, 'impl': impl, 'args': args, 'inexact': set(inexact), 'fmt': fmt, 'pre': pre})
 
     cube = lambda A: A ** 3
-    op('degrees_und', 'wu', lambda b, A, a: {'deg': b.degrees_und(A)})
-    op('degrees_dir', 'wd', lambda b, A, a: dict(zip(('id', 'od', 'deg'), b.degrees_dir(A))))
-    op('strengths_und', 'wu', lambda b, A, a: {'str': b.strengths_und(A)})
-    op('strengths_dir', 'wd', lambda b, A, a: {'str': b.strengths_dir(A)})
     op('strengths_und_sign', 'su', lambda b, A, a: dict(zip(('Spos', 'Sneg', 'vpos', 'vneg'), b.strengths_und_sign(A))))
     op('density_dir', 'wd', lambda b, A, a: dict(zip(('kden', 'n', 'k'), b.density_dir(A))))
     op('density_und', 'wu', lambda b, A, a: dict(zip(('kden', 'n', 'k'), b.density_und(A))))
-    op('clustering_coef_bu', 'bu', lambda b, A, a: {'C': b.clustering_coef_bu(A)})
-    op('clustering_coef_bd', 'bd', lambda b, A, a: {'C': b.clustering_coef_bd(A)})
-    op('clustering_coef_wd', 'wd', lambda b, A, a: {'C': b.clustering_coef_wd(cube(A))}, inexact=('C',))
-    op('clustering_coef_wu', 'wu', lambda b, A, a: {'C': b.clustering_coef_wu(cube(A))}, inexact=('C',))
-    op('transitivity_bu', 'bu', lambda b, A, a: {'T': b.transitivity_bu(A)})
-    op('transitivity_bd', 'bd', lambda b, A, a: {'T': b.transitivity_bd(A)})
-    op('transitivity_wd', 'wd', lambda b, A, a: {'T': b.transitivity_wd(cube(A))}, inexact=('T',))
-    op('transitivity_wu', 'wu', lambda b, A, a: {'T': b.transitivity_wu(cube(A))}, inexact=('T',))
     op('matching_ind', 'bd', lambda b, A, a: dict(zip(('Min', 'Mout', 'Mall'), b.matching_ind(A))))
     op('edge_nei_overlap', 'bu', lambda b, A, a: {'EC': b.edge_nei_overlap_bu(A)[0]})
     op('edge_nei_overlap', 'bd', lambda b, A, a: {'EC': b.edge_nei_overlap_bd(A)[0]})
     op('gtom', 'bu', lambda b, A, a: {'gt': b.gtom(A, a[0])}, args=((0,), (1,), (2,), (3,), (4,)), fmt=lambda a: ' steps=%d' % a[0])
     op('flow_coef_bd', 'bd', lambda b, A, a: (lambda r: {'fc': r[0], 'total_flo': r[2]})(b.flow_coef_bd(A)))
-    op('participation_coef', 'wd', lambda b, A, a: {'P': b.participation_coef(A, ci_of(A), degree=a[0])}, args=(('out',), ('in',)),
-       fmt=lambda a: ' degree=%s' % a[0], inexact=('P',), pre='ci')
-    for nm in ('kcore_bu', 'kcore_bd'):
-        op(nm, nm[-2:], lambda b, A, a, nm=nm: dict(zip(('core', 'kn'), getattr(b, nm)(A, a[0]))), args=((0,), (1,), (2,), (3,), (4,)),
-           fmt=lambda a: ' k=%d' % a[0])
-    op('score_wu', 'wu', lambda b, A, a: dict(zip(('core', 'kn'), b.score_wu(A, a[0]))), args=((1,), (3,), (6,), (10,)), fmt=lambda a: ' k=%d' % a[0])
-    op('kcoreness_centrality_bu', 'bu', lambda b, A, a: dict(zip(('coreness', 'kn'), b.kcoreness_centrality_bu(A))))
-    op('kcoreness_centrality_bd', 'bd', lambda b, A, a: dict(zip(('coreness', 'kn'), b.kcoreness_centrality_bd(A))))
     op('rich_club_bu', 'bu', lambda b, A, a: dict(zip(('R', 'Nk', 'Ek'), b.rich_club_bu(A))))
     op('rich_club_bd', 'bd', lambda b, A, a: dict(zip(('R', 'Nk', 'Ek'), b.rich_club_bd(A))))
     op('assortativity_bin', 'bu', lambda b, A, a: {'r': b.assortativity_bin(A, 0)}, args=((0,),), fmt=lambda a: ' flag=%d' % a[0], inexact=('r',))
     op('assortativity_bin', 'bd', lambda b, A, a: {'r': b.assortativity_bin(A, a[0])}, args=((1,), (2,), (3,), (4,), (5,)),
        fmt=lambda a: ' flag=%d' % a[0], inexact=('r',))
     op('assortativity_wei', 'wu', lambda b, A, a: {'r': b.assortativity_wei(A, 0)}, inexact=('r',))
-    op('distance_bin', 'wd', lambda b, A, a: {'D': b.distance_bin(A)})
-    op('efficiency_bin', 'wd', lambda b, A, a: {'E': b.efficiency_bin(A.copy())}, inexact=('E',))
-    op('reachdist', 'wd', lambda b, A, a: dict(zip(('R', 'D'), b.reachdist(A.copy()))))
-    # the exact series sum_k (A^k)_ii / k! (40 terms) against the eigen-decomposition based routine
-    op('subgraph_series', 'bu', lambda b, A, a: {'Cs': b.subgraph_centrality(A)}, args=((40,),), fmt=lambda a: ' K=%d' % a[0], inexact=('Cs',))
     return O
 
 
